@@ -117,6 +117,7 @@ class Oracle:
     def pre_step(self, run: "SingleRun", ei: int, ev: dict) -> None: ...
     def post_step(self, run: "SingleRun", ei: int, ev: dict, exc: BaseException | None) -> None: ...
     def on_hparam(self, run: "SingleRun", ei: int, ev: dict) -> None: ...
+    def on_poke(self, run: "SingleRun", ei: int, ev: dict) -> None: ...
     def finish(self, run: "SingleRun") -> None: ...
 
 
@@ -253,6 +254,14 @@ class SingleRun:
                     setattr(self.hps[gi], {"lr": "lr", "weight_decay": "weight_decay", "momentum": "momentum"}[key], value)
                     for o in self.oracles:
                         o.on_hparam(self, ei, ev)
+                elif op == "poke":
+                    # the user rescales a parameter in place between two steps (weight clipping, re-normalisation, a model
+                    # load): the optimizer must work from the parameter's current value, not from anything it remembered
+                    with torch.no_grad():
+                        self.params[ev["param"]].mul_(ev["scale"])
+                    self.probes["param_poked"] += 1
+                    for o in self.oracles:
+                        o.on_poke(self, ei, ev)
                 else:
                     raise adapter.HarnessError(f"unknown event {op}")
             for o in self.oracles:
@@ -917,6 +926,12 @@ class PresplitTwin(Oracle):
     def on_hparam(self, run: SingleRun, ei: int, ev: dict) -> None:
         self.topt.param_groups[ev["group"]][ev["key"]] = ev["value"]
 
+    def on_poke(self, run: SingleRun, ei: int, ev: dict) -> None:
+        with torch.no_grad():
+            for b, tp in zip(self.block_refs, self.tparams):
+                if b.param_index == ev["param"]:
+                    tp.mul_(ev["scale"])
+
     def post_step(self, run: SingleRun, ei: int, ev: dict, exc: BaseException | None) -> None:
         texc = None
         try:
@@ -1046,6 +1061,10 @@ class TorchOptimTwin(Oracle):
     def on_hparam(self, run: SingleRun, ei: int, ev: dict) -> None:
         self.topt.param_groups[ev["group"]][ev["key"]] = ev["value"]
 
+    def on_poke(self, run: SingleRun, ei: int, ev: dict) -> None:
+        with torch.no_grad():
+            self.tparams[ev["param"]].mul_(ev["scale"])
+
     def pre_step(self, run: SingleRun, ei: int, ev: dict) -> None:
         for p, tp in zip(run.params, self.tparams):
             tp.grad = None if p.grad is None else p.grad.detach().clone()
@@ -1106,6 +1125,13 @@ class GroupIndependenceTwin(Oracle):
 
     def on_hparam(self, run: SingleRun, ei: int, ev: dict) -> None:
         self.twins[ev["group"]][2].param_groups[0][ev["key"]] = ev["value"]
+
+    def on_poke(self, run: SingleRun, ei: int, ev: dict) -> None:
+        with torch.no_grad():
+            for idxs, tparams, topt in self.twins:
+                for pi, tp in zip(idxs, tparams):
+                    if pi == ev["param"]:
+                        tp.mul_(ev["scale"])
 
     def pre_step(self, run: SingleRun, ei: int, ev: dict) -> None:
         self.prev = []
